@@ -163,6 +163,7 @@ pub fn run_c13(a: &Args, rep: &mut Report) {
     let mut rng = Rng::derive(a.seed, a.shard, 13);
     let n = ((if a.tier == "quick" { 1_600_000.0 } else { 100_000_000.0 }) * a.scale) as u64 / a.nshards;
     let mut k = 0u64;
+    let mut par_texts: Vec<String> = Vec::new();
     while k < n {
         // a small program of 1..6 lines; each line has an expected encoding or is expected to fail
         let lines = if rng.chance(1, 2) { 1 } else { rng.range(2, 6) as usize };
@@ -225,6 +226,9 @@ pub fn run_c13(a: &Args, rep: &mut Report) {
         }
         k += 1;
         rep.case(Some(fnv(text.as_bytes())));
+        if par_texts.len() < 6000 && k % 7 == 0 {
+            par_texts.push(text.clone());
+        }
         let got = sys::catch(|| assemble(&text));
         let bad = match (&expect, &got) {
             (_, Err(p)) => Some(("panic".to_string(), format!("assemble panicked: {p}"))),
@@ -273,6 +277,11 @@ pub fn run_c13(a: &Args, rep: &mut Report) {
             }
             rep.violation(&format!("C13:{kind}:{culprit}"), detail, json!({"kind": "asm-case", "text": text}));
         }
+    }
+    // ---- the same texts assembled by 8 threads at once must give what they gave sequentially ----
+    if !cfg!(miri) {
+        let (execs, bad) = crate::mon_par::par_same(&par_texts, |t| sys::catch(|| assemble(t)).map_err(|p| sys::panic_site(&p)), if a.tier == "quick" { 2 } else { 6 });
+        crate::mon_par::report_par(rep, "C13", "assemble", execs, bad, |i| json!({"text": par_texts[i]}));
     }
     // ---- one caller-owned buffer, refilled: long sources of EQUAL length at the SAME address ----
     // (what a caller reading programs into a reused String does); every text has its own expected
@@ -505,6 +514,7 @@ pub fn run_c14(a: &Args, rep: &mut Report) {
     let table = asm_table();
     let mut rng = Rng::derive(a.seed, a.shard, 14);
     let n = ((if a.tier == "quick" { 1_600_000.0 } else { 100_000_000.0 }) * a.scale) as u64 / a.nshards;
+    let mut par_texts: Vec<String> = Vec::new();
     for k in 0..n {
         let (name, kind, _) = &table[(k as usize + rng.below(5) as usize) % table.len()];
         let mode = rng.below(11);
@@ -601,6 +611,9 @@ pub fn run_c14(a: &Args, rep: &mut Report) {
         };
         rep.set("input_classes", class);
         rep.case(Some(fnv(text.as_bytes())));
+        if par_texts.len() < 6000 && k % 5 == 0 && text.len() < 4096 {
+            par_texts.push(text.clone());
+        }
         let t0 = std::time::Instant::now();
         let r = sys::catch(|| assemble(&text));
         let dt = t0.elapsed();
@@ -620,6 +633,11 @@ pub fn run_c14(a: &Args, rep: &mut Report) {
         if dt.as_millis() as usize > 2000 + text.len() {
             rep.inconclusive(format!("assemble took {:?} on a {}-byte input ({class})", dt, text.len()));
         }
+    }
+    // the same hostile strings on 8 threads at once: still no panic, and the same outcome as alone
+    if !cfg!(miri) {
+        let (execs, bad) = crate::mon_par::par_same(&par_texts, |t| sys::catch(|| assemble(t)).map_err(|p| sys::panic_site(&p)), if a.tier == "quick" { 2 } else { 6 });
+        crate::mon_par::report_par(rep, "C14", "assemble-hostile-strings", execs, bad, |i| json!({"text": par_texts[i]}));
     }
 }
 
@@ -842,11 +860,15 @@ pub fn run_c15(a: &Args, rep: &mut Report) {
         }
     }
     let total = progs.len() as u64 + n;
+    let mut par_progs: Vec<Vec<u8>> = Vec::new();
     for k in 0..total {
         let p = if (k as usize) < progs.len() { progs[k as usize].clone() } else { gen_prog(&mut rng, &ops, false, false, 2000) };
         let bytes = encode_prog(&p);
         rep.case(Some(fnv(&bytes)));
         rep.add("instructions", p.len() as u64);
+        if par_progs.len() < 6000 && k % 11 == 0 && bytes.len() <= 8 * 256 {
+            par_progs.push(bytes.clone());
+        }
         let r = sys::catch(|| disasm(&bytes));
         let entries = match r {
             Err(pmsg) => {
@@ -885,6 +907,12 @@ pub fn run_c15(a: &Args, rep: &mut Report) {
             let m = mnemonic(ins.opc, ins.src).unwrap_or_default();
             rep.violation(&format!("C15:{kind}:{m}"), detail, json!({"kind": "disasm-case", "prog": hex(&bytes[..bytes.len().min(512)])}));
         }
+    }
+    // the same programs disassembled by 8 threads at once: same entries as alone
+    if !cfg!(miri) {
+        let f = |b: &Vec<u8>| sys::catch(|| disasm(b).iter().map(|e| (e.opc, e.dst, e.src, e.off, e.imm, e.name.clone(), e.desc.clone())).collect::<Vec<_>>()).map_err(|p| sys::panic_site(&p));
+        let (execs, bad) = crate::mon_par::par_same(&par_progs, f, if a.tier == "quick" { 2 } else { 6 });
+        crate::mon_par::report_par(rep, "C15", "disassemble", execs, bad, |i| json!({"prog": hex(&par_progs[i])}));
     }
 }
 
